@@ -1,1 +1,310 @@
-/-! # C13 — property theorems (stub: not built yet) -/
+import KM.Lemmas.Redirect
+import KM.Gen.C13
+/-! # C13 — authorization codes are redirected only to the client's own https hosts
+
+Property theorems only.  `decide` mirrors `CanRedirectToURL` over parsed components, `goParse` the part of
+Go's `url.Parse` that determines them, `browserHost` is the WHATWG reference for where a browser goes with
+the same string; `re` (the verdicts of `regexp.MatchString`) is a parameter of every theorem. -/
+namespace KM.Redirect
+
+theorem reLoop_true {re : List Char → Option Bool} {pats : List (List Char)} (h : reLoop re pats = some true) :
+    ∃ pat ∈ pats, re pat = some true := by
+  induction pats with
+  | nil => simp [reLoop] at h
+  | cons p rest ih =>
+    unfold reLoop at h
+    split at h
+    · cases h
+    · rename_i hp; exact ⟨p, List.mem_cons_self, hp⟩
+    · obtain ⟨q, hq, hr⟩ := ih h
+      exact ⟨q, List.mem_cons_of_mem _ hq, hr⟩
+
+theorem ofBool_accept {b : Bool} (h : Verdict.ofBool b = .accept) : b = true := by
+  cases b <;> simp [Verdict.ofBool] at h ⊢
+
+theorem any_hostMatches {doms : List (List Char)} {host : List Char}
+    (h : doms.any (fun d => hostMatches host d) = true) :
+    ∃ d ∈ doms, d ≠ [] ∧ host ≠ [] ∧ (host = d ∨ dotted d <:+ host) := by
+  rw [List.any_eq_true] at h
+  obtain ⟨d, hd, hm⟩ := h
+  exact ⟨d, hd, (hostMatches_iff host d).mp hm⟩
+
+/-- **Decision**: whatever the regular expressions answer, an accepted redirect URL was parsed, has scheme
+https, no query, no ".." in its path, a host, that host is a configured domain or ends with "." ++ domain
+(when domains are configured), and one of the patterns matched (when patterns are configured). -/
+theorem c13_decision (re : List Char → Option Bool) (c : Client) (p : Option Parsed)
+    (h : decide re c p = .accept) :
+    ∃ u, p = some u ∧ u.scheme = https ∧ u.rawQuery = [] ∧ ¬ (['.', '.'] <:+: u.path) ∧ u.host ≠ [] ∧
+      (c.domains ≠ [] → ∃ d ∈ c.domains, d ≠ [] ∧ (u.host = d ∨ dotted d <:+ u.host)) ∧
+      (c.patterns ≠ [] → ∃ pat ∈ c.patterns, re pat = some true) := by
+  unfold decide at h
+  split at h
+  · cases h
+  · split at h
+    · cases h
+    · rename_i m hre
+      split at h
+      · cases h
+      · rename_i u
+        split at h
+        · cases h
+        · rename_i hs
+          split at h
+          · cases h
+          · rename_i hq
+            split at h
+            · cases h
+            · rename_i hdd
+              split at h
+              · cases h
+              · rename_i hhost
+                refine ⟨u, rfl, by simpa using hs, by simpa using hq, ?_, hhost, ?_⟩
+                · intro hin
+                  exact hdd ((hasDotDot_iff _).mpr hin)
+                · unfold domainStep at h
+                  split at h
+                  · rename_i hnd
+                    have hm := ofBool_accept h
+                    subst hm
+                    constructor
+                    · intro hne
+                      cases hd : c.domains with
+                      | nil => exact absurd hd hne
+                      | cons a as => rw [hd] at hnd; simp at hnd
+                    · intro _
+                      exact reLoop_true hre
+                  · have hb := ofBool_accept h
+                    simp only [Bool.and_eq_true] at hb
+                    constructor
+                    · intro _
+                      obtain ⟨d, hd, h1, _, h3⟩ := any_hostMatches hb.1
+                      exact ⟨d, hd, h1, h3⟩
+                    · intro hne
+                      have hm : m = true := by
+                        have := hb.2
+                        split at this
+                        · rename_i hl
+                          cases hp : c.patterns with
+                          | nil => exact absurd hp hne
+                          | cons a as => rw [hp] at hl; simp at hl
+                        · exact this
+                      subst hm
+                      exact reLoop_true hre
+
+/-- **Unconfigured client**: a client with neither domains nor patterns is never redirected to. -/
+theorem c13_unconfigured_client (re : List Char → Option Bool) (c : Client) (p : Option Parsed)
+    (h1 : c.domains = []) (h2 : c.patterns = []) : decide re c p = .reject := by
+  simp [decide, h1, h2]
+
+theorem getClient_some {clients : List Client} {id : List Char} {c : Client} (h : getClient clients id = some c) :
+    c ∈ clients ∧ c.id = id := by
+  unfold getClient at h
+  have h1 := List.mem_of_find?_eq_some h
+  have h2 := List.find?_some h
+  exact ⟨h1, by simpa using h2⟩
+
+/-- **Authorize step**: a code leaves only to the very string that `CanRedirectToURL` of the client
+registered under the submitted client id accepted. -/
+theorem c13_authorize (re : List Char → List Char → Option Bool) (clients : List Client) (id s t : List Char)
+    (h : authorizeTarget re clients id s = some t) :
+    t = s ∧ ∃ c ∈ clients, c.id = id ∧ canRedirect re c s = .accept := by
+  unfold authorizeTarget at h
+  split at h
+  · cases h
+  · rename_i c hc
+    split at h
+    · rename_i hacc
+      simp at h
+      exact ⟨h.symm, c, (getClient_some hc).1, (getClient_some hc).2, hacc⟩
+    · cases h
+
+/-- **Unknown client**: a client id that no configured client carries never gets a code. -/
+theorem c13_unknown_client (re : List Char → List Char → Option Bool) (clients : List Client) (id s : List Char)
+    (h : ∀ c ∈ clients, c.id ≠ id) : authorizeTarget re clients id s = none := by
+  cases hr : authorizeTarget re clients id s with
+  | none => rfl
+  | some t =>
+    obtain ⟨_, c, hc, hid, _⟩ := c13_authorize re clients id s t hr
+    exact absurd hid (h c hc)
+
+/-- Go and the browser agree on the host of every string that Go parses as https with a host. -/
+theorem browser_agrees {s : List Char} {u : Parsed} (h : goParse s = some u) (h1 : u.scheme = https)
+    (h2 : u.host ≠ []) :
+    browserHost s = .fail ∨ browserHost s = .domain (lower u.host) ∨ browserHost s = .ipv6 (lower u.host) := by
+  obtain ⟨a, sch', auth, tail, hs, rfl, hal, hsc, hlow, hdel, htail, hpa, hhost⟩ := goParse_shape h h1 h2
+  obtain ⟨hsafe, hph⟩ := parseAuthority_some hpa
+  have hne : auth ≠ [] := by
+    intro e
+    subst e
+    have : hs = [] := by
+      have e0 : parseHost (afterLast '@' []) = some [] := by decide
+      rw [e0] at hph
+      simpa using hph.symm
+    subst this
+    exact h2 (by rw [hhost]; decide)
+  have hauth : ∀ c ∈ auth, authC c := fun c hc => ⟨hsafe c hc, hdel c hc⟩
+  rw [browser_on_shape hal hsc hlow hauth hne htail, hhost]
+  exact host_agree hph
+
+/-- **String, end to end**: for every redirect_uri string that `CanRedirectToURL` accepts — whatever the
+patterns answer — a browser handed the same string either refuses it or navigates to exactly the host that
+Go matched (lower-cased; as a domain, or as the text of an IPv6 literal).  This excludes user-info tricks,
+backslashes, tabs and newlines, missing or extra slashes, ports and percent-escapes in the authority. -/
+theorem c13_string (re : List Char → List Char → Option Bool) (c : Client) (s : List Char)
+    (h : canRedirect re c s = .accept) :
+    ∃ u, goParse s = some u ∧ u.host ≠ [] ∧
+      (browserHost s = .fail ∨ browserHost s = .domain (lower u.host) ∨ browserHost s = .ipv6 (lower u.host)) := by
+  obtain ⟨u, hu, hs, _, _, hh, _, _⟩ := c13_decision _ c _ h
+  exact ⟨u, hu, hh, browser_agrees hu hs hh⟩
+
+/-- **String, with domains**: when the client has domains configured, the host the browser ends at is a
+configured domain (as a browser spells it: lower-cased) or ends with "." ++ that domain. -/
+theorem c13_string_domains (re : List Char → List Char → Option Bool) (c : Client) (s bh : List Char)
+    (h : canRedirect re c s = .accept) (hd : c.domains ≠ [])
+    (hb : browserHost s = .domain bh ∨ browserHost s = .ipv6 bh) :
+    ∃ d ∈ c.domains, d ≠ [] ∧ (bh = lower d ∨ dotted (lower d) <:+ bh) := by
+  obtain ⟨u, hu, hs, _, _, hh, hdom, _⟩ := c13_decision _ c _ h
+  obtain ⟨d, hdm, hdne, hmatch⟩ := hdom hd
+  have hbh : bh = lower u.host := by
+    rcases browser_agrees hu hs hh with e | e | e <;> rcases hb with b | b <;> rw [e] at b <;> cases b <;> rfl
+  have hm : hostMatches u.host d = true := (hostMatches_iff _ _).mpr ⟨hdne, hh, hmatch⟩
+  have := (hostMatches_iff _ _).mp (hostMatches_lower hm)
+  exact ⟨d, hdm, hdne, by rw [hbh]; exact this.2.2⟩
+
+/-- **CORS / audience**: `CorsOriginAllowed` and `idpOpenIDCGenericIsCorsOriginAllowed` answer true only
+for an https origin whose host is a configured domain or ends with "." ++ domain, and a browser agrees
+on that host. -/
+theorem c13_cors (doms : List (List Char)) (s : List Char) (h : corsAllowed doms (goParse s) = true) :
+    ∃ u, goParse s = some u ∧ u.scheme = https ∧
+      (∃ d ∈ doms, d ≠ [] ∧ (u.host = d ∨ dotted d <:+ u.host)) ∧
+      (browserHost s = .fail ∨ browserHost s = .domain (lower u.host) ∨ browserHost s = .ipv6 (lower u.host)) := by
+  unfold corsAllowed corsAllowedWith at h
+  split at h
+  · cases h
+  · rename_i u hu
+    split at h
+    · cases h
+    · rename_i hs
+      have hs' : u.scheme = https := by simpa using hs
+      obtain ⟨d, hd, h1, h2, h3⟩ := any_hostMatches h
+      exact ⟨u, hu, hs', ⟨d, hd, h1, h3⟩, browser_agrees hu hs' h2⟩
+
+theorem c13_cors_generic (clients : List Client) (s : List Char)
+    (h : genericCorsAllowed clients (goParse s) = true) :
+    ∃ u, goParse s = some u ∧ u.scheme = https ∧
+      (∃ c ∈ clients, ∃ d ∈ c.domains, d ≠ [] ∧ (u.host = d ∨ dotted d <:+ u.host)) ∧
+      (browserHost s = .fail ∨ browserHost s = .domain (lower u.host) ∨ browserHost s = .ipv6 (lower u.host)) := by
+  unfold genericCorsAllowed genericCorsAllowedWith at h
+  split at h
+  · cases h
+  · rename_i u hu
+    split at h
+    · cases h
+    · rename_i hs
+      have hs' : u.scheme = https := by simpa using hs
+      rw [List.any_eq_true] at h
+      obtain ⟨c, hc, hm⟩ := h
+      obtain ⟨d, hd, h1, h2, h3⟩ := any_hostMatches hm
+      exact ⟨u, hu, hs', ⟨c, hc, d, hd, h1, h3⟩, browser_agrees hu hs' h2⟩
+
+end KM.Redirect
+
+/-! ### the pinned tree, witnesses and non-vacuity -/
+namespace KM.Redirect
+
+def exDomains : Client := { id := "dom".toList, domains := ["example.com".toList], patterns := [] }
+def exPatterns : Client := { id := "docre".toList, domains := [], patterns := ["docs".toList] }
+def exEmptyDomain : Client := { id := "odd".toList, domains := [[]], patterns := [] }
+/-- an oracle under which every pattern matches (the harness replays the witnesses with real regexps) -/
+def reYes : List Char → List Char → Option Bool := fun _ _ => some true
+
+/-- the validator as found is **not** safe:
+* the suffix test without label boundary accepts `https://evilexample.com/cb` for the domain `example.com`;
+* an empty configured domain accepts every https host;
+* a URL that Go parses without host (`https:/evil.example\.example.com/`, which the regexp of
+  docs/website/openidc-idp.md matches) is accepted for a patterns-only client although a browser
+  navigates to `evil.example`. -/
+theorem c13_unfixed_counterexample :
+    (canRedirectOld reYes exDomains "https://evilexample.com/cb".toList = .accept ∧
+      browserHost "https://evilexample.com/cb".toList = .domain "evilexample.com".toList ∧
+      hostMatches "evilexample.com".toList "example.com".toList = false) ∧
+    (canRedirectOld reYes exEmptyDomain "https://evil.example/".toList = .accept) ∧
+    (canRedirectOld reYes exPatterns "https:/evil.example\\.example.com/".toList = .accept ∧
+      (goParse "https:/evil.example\\.example.com/".toList).map (·.host) = some [] ∧
+      browserHost "https:/evil.example\\.example.com/".toList = .domain "evil.example".toList) := by
+  decide
+
+/-- the repaired validator refuses all three -/
+theorem c13_fixed_witnesses :
+    canRedirect reYes exDomains "https://evilexample.com/cb".toList = .reject ∧
+    canRedirect reYes exEmptyDomain "https://evil.example/".toList = .reject ∧
+    canRedirect reYes exPatterns "https:/evil.example\\.example.com/".toList = .reject := by
+  decide
+
+/-- non-vacuity: ordinary redirect URIs are accepted, and Go and the browser see the same host -/
+example : canRedirect reYes exDomains "https://www.example.com:443/cb".toList = .accept ∧
+    browserHost "https://www.example.com:443/cb".toList = .domain "www.example.com".toList ∧
+    canRedirect reYes exDomains "https://example.com".toList = .accept ∧
+    canRedirect reYes exPatterns "https://u:p@App.example.net/x#f".toList = .accept ∧
+    browserHost "https://u:p@App.example.net/x#f".toList = .domain "app.example.net".toList := by
+  decide
+
+/-- the three results of `browserHost` in `c13_string` all occur on accepted strings: a host with a port the
+browser refuses, a domain, an IPv6 literal -/
+example : canRedirect reYes exPatterns "https://www.example.com:99999/".toList = .accept ∧
+    browserHost "https://www.example.com:99999/".toList = .fail ∧
+    canRedirect reYes exPatterns "https://[::1]:8443/cb".toList = .accept ∧
+    browserHost "https://[::1]:8443/cb".toList = .ipv6 "::1".toList := by
+  decide
+
+/-- strings on which Go and a browser see different hosts exist, and every one of them is refused:
+user-info tricks, backslashes, tab in the host, missing slashes -/
+example :
+    (["https://good.example.com@evil.example/", "https://evil.example\\@good.example.com/",
+      "https://good.example.com\\@evil.example/", "https://evil.example#@good.example.com/",
+      "https:/\\evil.example/.example.com/", "https:\\\\evil.example/.example.com",
+      "https://evil.example\\.example.com/", "https://ww\tw.evil.example/.example.com",
+      "https://evil.example%2f.example.com/", "https://evil.example%23.example.com/"].map
+        (fun s => canRedirect reYes exDomains s.toList)).all (· != .accept) = true := by
+  decide
+
+end KM.Redirect
+
+/-! ### the source of the current tree (regenerated tables) -/
+namespace KM.Redirect
+open KM.RedirectSite KM.Gen.C13
+
+/-- **Sites**: the statements of `CanRedirectToURL`, `CorsOriginAllowed` and
+`idpOpenIDCGenericIsCorsOriginAllowed` are, in this order, exactly the tests that `decide`, `corsAllowed`
+and `genericCorsAllowed` mirror (scheme literal "https", the `RawQuery` test, the ".." literal, the host
+test); every comparison of a parsed host with a configured domain in cmd/keymasterd goes through the
+label-boundary helper, whose text is the one `hostMatches` mirrors; and in the authorize handler the client
+comes from `idpOpenIDCGetClientConfig`, both failure branches of `CanRedirectToURL` return, and the only
+redirect of the function appends `?code=…` to the validated, never re-assigned variable. -/
+theorem c13_sites :
+    canRedirectSteps = [
+      .noConfigReject, .flagInit "matchedRE".toList false, .reLoop, .parse, .parseErrReject,
+      .schemeNeReject https, .rawQueryReject, .pathContainsReject ['.', '.'], .hostEmptyReject,
+      .noDomainsReturnRE, .noPatternsSetRE, .flagInit "matchedDomain".toList false,
+      .domainLoop .dotBoundary, .returnBoth] ∧
+    corsSteps = [.parse, .parseErrReject, .schemeNeReject https, .domainLoopReturnTrue .dotBoundary, .returnFalse] ∧
+    genericCorsSteps = [.parse, .parseErrReject, .schemeNeReject https,
+      .clientsDomainLoopReturnTrue .dotBoundary, .returnFalse] ∧
+    hostSites.length = 3 ∧ hostSites.all (fun s => s.2 == HostCmp.dotBoundary) = true ∧
+    hostHelper = [
+      ("domain == \"\" || host == \"\"".toList, "false".toList),
+      ("host == domain".toList, "true".toList),
+      ("strings.HasPrefix(domain, \".\")".toList, "strings.HasSuffix(host, domain)".toList),
+      ("".toList, "strings.HasSuffix(host, \".\"+domain)".toList)] ∧
+    authorize = {
+      lookupCall := "oidcClient, err := state.idpOpenIDCGetClientConfig(clientID)".toList,
+      lookupErrReturns := true,
+      validateCall := "ok, parsedRedirectURL, err := oidcClient.CanRedirectToURL(requestRedirectURLString)".toList,
+      validatedVar := "requestRedirectURLString".toList,
+      errGuardReturns := true, okGuardReturns := true, varAssignments := 1, redirectCalls := 1,
+      redirectFmt := "%s?code=%s&state=%s".toList,
+      redirectFirstArg := "requestRedirectURLString".toList,
+      orderOK := true } := by
+  decide
+
+end KM.Redirect
